@@ -155,6 +155,56 @@ pub proof fn lemma_descriptors_push(s: Seq<SocketAddress>, a: SocketAddress)
 //@with
     if addr_len < addr_readpos + addr.len() {
 //@end
+// ---- node_announcement, reading side: where the bytes after the known addresses go ---------------------------------------------
+// The writer emits `addresses`, then `excess_address_data` (inside the declared addrlen), then `excess_data`.  The reader has
+// consumed the known addresses and possibly the type byte of the first unknown descriptor; the bytes that follow, with that
+// type byte put back in front, must come out as excess_address_data (exactly the rest of the declared region) followed by excess_data.
+pub struct ByteReader { pub rest: Ghost<Seq<u8>> }
+#[verifier::external_body] pub fn read_exact_from(r: &mut ByteReader, buf: &mut Vec<u8>, from: usize) -> (res: Result<(), DecodeError>)
+    requires from <= old(buf)@.len()
+    ensures res is Ok ==> old(r).rest@.len() >= old(buf)@.len() - from
+            && final(buf)@ =~= old(buf)@.subrange(0, from as int) + old(r).rest@.subrange(0, old(buf)@.len() - from)
+            && final(r).rest@ =~= old(r).rest@.skip(old(buf)@.len() - from),
+        res is Err ==> final(buf)@.len() == old(buf)@.len(),
+{ unimplemented!() }
+#[verifier::external_body] pub fn read_to_end(r: &mut ByteReader) -> (res: Result<Vec<u8>, DecodeError>)
+    ensures res matches Ok(v) ==> v@ == old(r).rest@ && final(r).rest@.len() == 0 { unimplemented!() }
+#[verifier::external_body] pub fn extend_bytes(v: &mut Vec<u8>, more: Vec<u8>) ensures final(v)@ == old(v)@ + more@ { unimplemented!() }
+#[verifier::external_body] pub fn zeroed(n: usize) -> (v: Vec<u8>) ensures v@.len() == n { unimplemented!() }
+//@extract lightning/src/ln/msgs.rs :: impl LengthReadable for UnsignedNodeAnnouncement :: fn read_from_fixed_length_buffer
+//@slice R15
+    let mut excess_data = vec![]; let excess_address_data = $sel:any; excess_data.extend(read_to_end(r)?.iter()); Ok(UnsignedNodeAnnouncement
+//@with
+    fn bytes_after_the_known_addresses(r: &mut ByteReader, addr_len: u16, addr_readpos: u16, excess: bool, excess_byte: u8) -> Result<(Vec<u8>, Vec<u8>), DecodeError> {
+        let mut excess_data = vec![]; let excess_address_data = $sel; excess_data.extend(read_to_end(r)?.iter());
+        Ok((excess_address_data, excess_data)) }
+//@rw R8 ?
+    vec![0; (addr_len - addr_readpos) as usize]
+//@with
+    zeroed((addr_len - addr_readpos) as usize)
+//@rw R5 ?
+    r.read_exact(&mut excess_address_data[if excess { 1 } else { 0 }..])?;
+//@with
+    read_exact_from(r, &mut excess_address_data, if excess { 1 } else { 0 })?;
+//@rw R6
+    excess_data.extend(read_to_end(r)?.iter());
+//@with
+    extend_bytes(&mut excess_data, read_to_end(r)?);
+//@ret res
+//@requires
+    addr_readpos <= addr_len,
+//@ensures P C13 the-bytes-after-the-known-addresses-are-kept-in-the-order-they-are-written-back
+    res matches Ok(t) ==> t.0@.len() == addr_len - addr_readpos
+        && t.0@ + t.1@ =~= (if excess { seq![excess_byte] } else { Seq::<u8>::empty() }) + old(r).rest@,
+//@mutant unknown_descriptor_type_byte_put_after_the_address_region
+    excess_address_data[0] = excess_byte;
+//@with
+    excess_data.push(excess_byte);
+//@mutant unknown_descriptor_type_byte_dropped
+    excess_address_data[0] = excess_byte;
+//@with
+    excess_address_data[0] = 0;
+//@end
 // ---- gossip queries: the encoded list of short channel ids is as long as its length field says, on both sides ----
 pub struct ScidList { pub short_channel_ids: Vec<u64> }
 impl ScidList {
